@@ -1,8 +1,9 @@
 // Package c15: file-based loading maps names to definition files faithfully (property C15).
 //
-// ops: `tree` (model + implementation), `@strict` (implementation only: the same op judged with the demands the known
+// ops: `tree` (model + implementation), `@nsprobe` (implementation only: `tree` with every name also looked up in the
+// namespaces no smart path serves), `@strict` (implementation only: the same op judged with the demands the known
 // findings fail) and `@forked` (implementation only; the same arguments, every lookup made under a
-// fresh child loader of the context's loader — what a forked context has), plus `tn` / `ep` (path.go):
+// fresh child loader of the context's loader — what a forked context has), plus `tn` / `ep` / `ctor` (path.go):
 //
 //	tree <mods> <files> <via> <lookups>
 //
@@ -577,6 +578,14 @@ func (w *world) run(c px.Context, l lookup) (o outcome) {
 			}
 			k, n := typeKind(v)
 			o = outcome{kind: "found", tkind: k, name: n}
+		case "loadfunction", "loadtask", "loadplan":
+			// the same name in a namespace no smart path serves
+			_, ok := px.Load(c, px.NewTypedName(px.Namespace(l.op[4:]), l.name))
+			if ok {
+				o = outcome{kind: "found", tkind: "?", name: l.name}
+			} else {
+				o = outcome{kind: "notfound"}
+			}
 		case "has":
 			o = outcome{kind: "has", has: ctxLoader.HasEntry(px.NewTypedName(px.NsType, l.name))}
 		case "discover":
@@ -593,9 +602,14 @@ func (w *world) run(c px.Context, l lookup) (o outcome) {
 }
 
 func exec(c px.Context, op string, args []sx.Sexp) core.Result {
-	forked, strict := false, false
+	forked, strict, nsprobe := false, false, false
 	switch op {
 	case "tree":
+	case "nsprobe":
+		// implementation-only (`@C15 nsprobe …`): before every type lookup the same name is looked up in the namespaces
+		// function, task and plan — which no smart path serves (only the data-type path has a factory): those lookups must
+		// answer not-found (or refuse the name) without reading a file, and the type lookups are judged as in `tree`
+		nsprobe = true
 	case "strict":
 		// implementation-only (`@C15 strict …`): a `tree` op judged with the two demands the known findings fail (a line
 		// for a misnamed file, no redefinition error for a name defined twice)
@@ -606,6 +620,8 @@ func exec(c px.Context, op string, args []sx.Sexp) core.Result {
 		forked = true
 	case "tn", "ep":
 		return execPath(op, args)
+	case "ctor":
+		return execCtor(args)
 	default:
 		return core.Result{Out: "bad-op", Pred: "FAIL harness-bad-op " + op}
 	}
@@ -632,7 +648,17 @@ func exec(c px.Context, op string, args []sx.Sexp) core.Result {
 	w.forked = forked
 	outs := make([]outcome, len(s.lookups))
 	items := make([]string, len(s.lookups))
+	nsLeak := ""
 	for i, l := range s.lookups {
+		if nsprobe && l.op == "load" {
+			for _, ns := range []string{"function", "task", "plan"} {
+				o := w.run(c, lookup{op: "load" + ns, name: l.name})
+				okKind := o.kind == "notfound" || (o.kind == "reported" && o.code == "PCORE_INVALID_CHARACTERS_IN_NAME")
+				if (!okKind || len(o.reads) > 0) && nsLeak == "" {
+					nsLeak = fmt.Sprintf("lookup of %s in namespace %s: %s", l.name, ns, o.String())
+				}
+			}
+		}
 		outs[i] = w.run(c, l)
 		items[i] = outs[i].String()
 	}
@@ -647,6 +673,12 @@ func exec(c px.Context, op string, args []sx.Sexp) core.Result {
 		out += fmt.Sprintf(" %s=%d", p, total[p])
 	}
 	res := judge(s, outs, total, out, strict)
+	if nsprobe {
+		res.Tags = append(res.Tags, "nsprobe")
+		if nsLeak != "" && !strings.HasPrefix(res.Pred, "FAIL") {
+			res = core.Fail(out, "namespace-leak", nsLeak)
+		}
+	}
 	if forked {
 		// the same oracle; a definition that is lost with the fork that loaded it gets its own class
 		for _, c := range []string{"missing-with-file", "case-sensitive", "unstable"} {
